@@ -67,12 +67,13 @@ var c10PartDyn = []*TDesc{
 var imBehNames = []string{"conforming-value", "marked-value", "unknown", "wrong-type", "returns-error", "panics", "null"}
 
 type c10Spec struct {
-	params []c10Param
-	varP   *c10Param
-	tyBeh  int
-	retT   *TDesc // static return type
-	imBeh  int
-	refine bool
+	params     []c10Param
+	varP       *c10Param
+	tyBeh      int
+	retT       *TDesc // static return type
+	imBeh      int
+	refine     bool
+	refineKind int // 0: not null only; k+1: also a bound for results of kind k
 }
 
 var c10ParamTypes = []*TDesc{
@@ -331,6 +332,7 @@ func simC10Protocol(c *Ctx) {
 		sp.imBeh = imValue
 	}
 	sp.refine = c.G(3) == 2
+	richRefine := c.G(2) == 0
 	var ps []string
 	for _, p := range sp.params {
 		ps = append(ps, p.String())
@@ -486,8 +488,30 @@ func simC10Protocol(c *Ctx) {
 		}
 		return spy.implRet, nil
 	}
+	// what the author declares about every result: not null; for a statically known number / string / collection
+	// return type also a bound that his own results satisfy (42, "result", one member)
+	sp.refineKind = 0
+	if sp.refine && sp.tyBeh == tyStatic && richRefine {
+		switch sp.retT.K {
+		case KNumber, KString, KList, KMap, KSet:
+			sp.refineKind = int(sp.retT.K) + 1
+		}
+	}
 	if sp.refine {
-		spec.RefineResult = func(b *cty.RefinementBuilder) *cty.RefinementBuilder { return b.NotNull() }
+		spec.RefineResult = func(b *cty.RefinementBuilder) *cty.RefinementBuilder {
+			b = b.NotNull()
+			switch Kind(sp.refineKind - 1) {
+			case KNumber:
+				if sp.refineKind > 0 {
+					b = b.NumberRangeLowerBound(cty.NumberIntVal(0), true)
+				}
+			case KString:
+				b = b.StringPrefixFull("res")
+			case KList, KMap, KSet:
+				b = b.CollectionLengthLowerBound(1)
+			}
+			return b
+		}
 	}
 	fn := function.New(spec)
 	c.API("function.New")
@@ -505,6 +529,11 @@ func simC10Protocol(c *Ctx) {
 			if sp.varP != nil {
 				nargs = np + c.G(3)
 			}
+		}
+		if sp.varP != nil && c.G(25) == 0 {
+			// a long variadic tail: whatever is kept per argument in fixed-width storage runs out somewhere
+			nargs = np + []int{30, 62, 63, 64, 65, 66, 130, 260}[c.G(8)]
+			c.Probe("c10.long-argument-list")
 		}
 		var descs []*VDesc
 		var kinds []string
@@ -878,6 +907,27 @@ func c10OneCall(c *Ctx, sp *c10Spec, fn function.Function, spy *c10Spy, descs []
 				}
 				fail("refinement-lost", sig, "the declared result refinement (not null) is missing from the typed unknown result %s", safeGoString(res))
 			}
+			if sp.refineKind > 0 && res.Type().Equals(sp.retT.Cty()) {
+				r := ures.Range()
+				ok := true
+				switch Kind(sp.refineKind - 1) {
+				case KNumber:
+					lo, inc := r.NumberLowerBound()
+					ok = lo.IsKnown() && inc && lo.RawEquals(cty.NumberIntVal(0))
+				case KString:
+					ok = r.StringPrefix() == "res"
+				case KList, KMap, KSet:
+					ok = r.LengthLowerBound() == 1
+				}
+				if !ok {
+					sig := "refinement-lost:bound"
+					if implEv == nil {
+						sig += ":short-circuit"
+					}
+					fail("refinement-lost", sig, "the declared result refinement (a bound on %s results) is missing from the typed unknown result %s", kindNames[sp.refineKind-1], safeGoString(res))
+				}
+				c.Probe("c10.bound-refinement-checked")
+			}
 		}
 	}
 	if implEv == nil && !unpredictable || unpredictable && (dyn || unknownShort) {
@@ -923,7 +973,10 @@ func c10OneCall(c *Ctx, sp *c10Spec, fn function.Function, spy *c10Spy, descs []
 	// the result is what the implementation returned, plus marks, plus refinement
 	want, _ := spy.implRet.Unmark()
 	if sp.refine && !want.IsKnown() && want.Type() != cty.DynamicPseudoType {
-		want = cty.UnknownVal(want.Type()).RefineNotNull()
+		want = ures // an unknown result: compared through its range below (checkRefined), and by type here
+		if !ures.Type().Equals(spy.implRet.Type()) || ures.IsKnown() {
+			want = cty.UnknownVal(spy.implRet.Type()).RefineNotNull()
+		}
 	}
 	if fp(ures) != fp(want) {
 		fail("wrong-result", "result-differs", "the result %s is not the implementation's result %s (marks and declared refinement aside)", safeGoString(res), safeGoString(spy.implRet))
